@@ -9,3 +9,6 @@ open Just.Props.C16
 #print axioms fallback_step
 #print axioms explicit_justfile_disables_both
 #print axioms candidate_names_are_documented
+#print axioms run_same
+#print axioms sameCand_withExtras
+#print axioms markers_change_nothing
